@@ -560,8 +560,9 @@ def c25_marginal_algorithm_all_selected():
 def c05_masked_update_python_scalar_trace():
     """fixed 660ef7a: masked Update of a trace that holds a Python float (constraint given as C.choice(1.0)) raised AttributeError in Distribution._like"""
     from genjax import Update, Diff, Mask
-    tr, _ = normal.importance(key, C.choice(1.0), (0.0, 1.0))
-    out = Update(C.choice(Mask(2.0, jnp.array(True)))).edit(key, tr, Diff.no_change((0.0, 1.0)))
+    from genjax import ChoiceMap as CM_
+    tr, _ = normal.importance(key, CM_.choice(1.0), (0.0, 1.0))
+    out = Update(CM_.choice(Mask(2.0, jnp.array(True)))).edit(key, tr, Diff.no_change((0.0, 1.0)))
     back = out[3].edit(key, out[0], Diff.no_change((0.0, 1.0)))
     assert float(out[0].get_retval()) == 2.0 and float(back[0].get_retval()) == 1.0 and abs(float(out[1]) + float(back[1])) < 1e-6
     return float(out[1])
